@@ -37,6 +37,9 @@ def single_class_plus(pattern, flags=0):
         return tuple(sorted(regex2smt.class_ranges(av, flags)))
     if op is sre_c.LITERAL:
         return ((av, av),)
+    if op is sre_c.NOT_LITERAL:
+        # `[^x]+` is compiled to a negated literal
+        return tuple(sorted(regex2smt._complement_ranges([(av, av)])))
     return None
 
 
